@@ -96,7 +96,155 @@ def nontrivial(h):
     return 'c08_nontrivial' in h.flags
 
 
-histprop.install(globals(), 12000, 300000)
+histprop.install(globals(), 10000, 300000)
+_seq_plan, _seq_run_shard = plan, run_shard      # noqa: F821  (defined by install)
+
+
+# --------------------------------------------------------------------------------------------------
+# two threads issuing the same key (scheduler-driven)
+# --------------------------------------------------------------------------------------------------
+
+RACE_INPUTS = ['in/a']
+RACE_UNIV = gen.make_universe((), 0, ('in/a', 'o/x', 'o/d/x', 'o/d/e/x', 'o/d/n'))
+RACE_CFG = gen.cfg_with(universe=RACE_UNIV, caches=['cache.gz'])
+
+
+@st.composite
+def race_program(draw, cfg, cache):
+    kind = draw(st.sampled_from(['bf', 'bf', 'sb']))
+    path = draw(st.sampled_from(['o/x', 'o/d/x', 'o/d/e/x']))
+    body = []
+    if draw(st.booleans()):
+        body.append(['q', draw(st.sampled_from(['read_text', 'exists', 'declare_read'])), 'in/a', draw(st.sampled_from(['METADATA', 'HASH']))])
+    funcs = {}
+    if kind == 'bf':
+        if draw(st.sampled_from(range(3))) == 0:
+            funcs['inner'] = {'kind': 'file', 'body': [['write']]}
+            body.append(['bf', 'o/d/n', 'inner', [], 'METADATA', True])
+        body.append(['write'])
+        if draw(st.sampled_from(range(5))) == 0:
+            body.append(['raise'])
+        funcs['f'] = {'kind': 'file', 'body': body}
+        call = ['bf', path, 'f', [1], draw(st.sampled_from(['METADATA', 'HASH'])), True]
+    else:
+        if draw(st.sampled_from(range(5))) == 0:
+            body.append(['raise'])
+        funcs['f'] = {'kind': 'sub', 'body': body}
+        call = ['sb', 'f', [1, 'k'], True]
+    t0 = [copy.deepcopy(call)]
+    t1 = [copy.deepcopy(call)]
+    placement = draw(st.sampled_from(['same', 'same', 'nested']))
+    if placement == 'nested':
+        funcs['wrap'] = {'kind': 'sub', 'body': [copy.deepcopy(call)]}
+        t1 = [['sb', 'wrap', [], True]]
+    elif placement == 'after' and kind == 'bf':
+        t0.append(['q', draw(st.sampled_from(['is_file', 'read_binary', 'get_size'])), path, 'HASH'])
+    root = [['par', [t0, t1]]]
+    if kind == 'bf' and draw(st.booleans()):
+        root.append(['q', 'read_binary', path, 'HASH'])
+    return {'root': root, 'funcs': funcs, 'universe': list(cfg['universe'])}
+
+
+def race_drive(draw, h, cfg):
+    h.nt_keys = []
+    step(h, ['write', 'in/a', draw(st.integers(0, 2))])
+    vers = {}
+    shape = draw(st.sampled_from(['first', 'first', 'rebuild', 'changed']))
+    if shape != 'first':
+        step(h, ['build', vers, None, None, {'sched': {'preempt': []}}])
+        if shape == 'changed':
+            step(h, draw(st.sampled_from([['write', 'in/a', 1], ['touch', 'in/a'], ['rm', 'o/x'], ['rm', 'o/d/x'], ['write', 'o/d/e/x', 0]])))
+    if h.dead:
+        return
+    h.apply(['save'])
+    step(h, ['build', vers, None, None, {'sched': {'preempt': []}}])
+    if h.dead:
+        return
+    N = ((h.rctx.extra.get('sched_runs') or [{'decisions': 0}])[0])['decisions']
+    h.stats['c08_race_scenarios'] += 1
+    specs = []
+    for first in (0, 1):
+        specs.append({'preempt': [], 'first': first})
+        for i in range(1, N + 12):
+            specs.append({'preempt': [[i, 0]], 'first': first})
+    pairs = [(i, j) for i in range(1, N + 8) for j in range(i + 1, N + 16)]
+    budget = cfg.get('pair_budget', 150)
+    if len(pairs) > budget:
+        pairs = draw(st.lists(st.sampled_from(pairs), min_size=budget, max_size=budget, unique=True))
+    else:
+        h.stats['c08_race_pairs_exhaustive'] += 1
+    for i, j in pairs:
+        specs.append({'preempt': [[i, 0], [j, 0]], 'first': draw(st.integers(0, 1))})
+    for spec in specs:
+        if h.dead:
+            return
+        h.apply(['restore'])
+        step(h, ['build', vers, None, None, {'sched': spec}])
+        h.stats['c08_race_runs'] += 1
+        sr = (h.rctx.extra.get('sched_runs') or [{}])[0]
+        if sr.get('switches', 0) > 0 or spec.get('first'):
+            h.stats['c08_race_runs_interleaved'] += 1
+            h.flags.add('c08_nontrivial')
+            h.nt_keys.append(['race', spec])
+        if not h.dead and h.last.get('committed'):
+            step(h, ['build', vers, None, None, {'sched': {'preempt': []}}])
+        if not h.dead:
+            step(h, ['clean'])
+
+
+class _RaceMod:
+    """View of this module for the shared history driver with the race generator plugged in."""
+    CLAUSES = CLAUSES
+    CFG = RACE_CFG
+    program_strategy = staticmethod(race_program)
+    drive = staticmethod(race_drive)
+    OPTS = {'par_any_order': True}
+
+    @staticmethod
+    def nontrivial(h):
+        return 'c08_nontrivial' in h.flags
+
+    @staticmethod
+    def adopt(h, f):
+        c = f['clause']
+        return None if c.startswith('C08') else 'C08.race_' + c.replace('.', '_')
+
+
+def plan(tier, seed):      # noqa: F811
+    shards = _seq_plan(tier, seed)
+    for sh in shards:
+        sh['part'] = 'seq'
+    n = 6 if tier == 'quick' else 250
+    for i in range(16):
+        shards.append({'part': 'race', 'seed': seed * 7001 + i, 'examples': n, 'tier': tier, 'i': i})
+    return shards
+
+
+def run_shard(shard):      # noqa: F811
+    if shard.get('part') == 'race':
+        res = histprop.run_history_shard(_RaceMod, shard)
+        res['counters']['race_scenarios'] = res['evaluations']
+        res['evaluations'] = int(res['counters'].get('c08_race_runs', 0))
+        return res
+    return _seq_run_shard(shard)
+
+
+def replay(case):      # noqa: F811
+    from ..harness import run_scenario
+    from ..dsl import iter_stmts as _it
+    is_race = any(s[0] == 'par' for s in _it(case['prog']['root']))
+    return run_scenario(case, clauses=CLAUSES, adopt=_RaceMod.adopt if is_race else adopt)[0]
+
+
+def shrink_candidates(case):      # noqa: F811
+    steps = case['steps']
+    idx = [i for i, s in enumerate(steps) if s[0] == 'restore']
+    for i in idx:
+        j = i + 1
+        while j < len(steps) and steps[j][0] != 'restore':
+            j += 1
+        yield dict(case, steps=steps[:i] + steps[j:])
+    yield from histprop.shrink_candidates(case)
 
 
 def vacuity(counters, evaluations, tier):
